@@ -125,8 +125,12 @@ pub fn generate_all_circuit_binaries<P: AsRef<Path>>(
     let staging_path = create_staging_dir(output_path)?;
 
     let generated = (|| -> Result<()> {
+        #[cfg(quantus_network_qp_zk_circuits_verif)]
+        verif_hooks::stage_probe(0)?;
         // Generate regular circuit binaries
         generate_circuit_binaries(&staging_path)?;
+        #[cfg(quantus_network_qp_zk_circuits_verif)]
+        verif_hooks::stage_probe(1)?;
 
         // Generate aggregated circuit binaries
         generate_private_batch_circuit_binaries(
@@ -134,6 +138,8 @@ pub fn generate_all_circuit_binaries<P: AsRef<Path>>(
             config.num_leaf_proofs,
             include_prover,
         )?;
+        #[cfg(quantus_network_qp_zk_circuits_verif)]
+        verif_hooks::stage_probe(2)?;
 
         // If num_private_batch_proofs is specified, generate public-batch aggregation circuit binaries
         if let Some(num_private_batch_proofs) = config.num_private_batch_proofs {
@@ -144,6 +150,8 @@ pub fn generate_all_circuit_binaries<P: AsRef<Path>>(
             )?;
         }
 
+        #[cfg(quantus_network_qp_zk_circuits_verif)]
+        verif_hooks::stage_probe(3)?;
         // Save config file alongside binaries. Written last: its presence marks
         // the staged set as complete.
         config.save(&staging_path)
@@ -307,6 +315,51 @@ fn commit_staging_dir_impl(
         }
     }
     Ok(())
+}
+
+/// Verification hooks: public entries to the staging/publish routines and an
+/// injectable failure/crash point between the generation stages.
+#[cfg(quantus_network_qp_zk_circuits_verif)]
+pub mod verif_hooks {
+    use super::*;
+    use std::cell::Cell;
+
+    /// What to do when generation reaches the armed stage.
+    #[derive(Debug, Clone, Copy, PartialEq, Eq)]
+    pub enum StageFault {
+        Fail,
+        Abort,
+    }
+
+    thread_local! {
+        static ARMED: Cell<Option<(u32, StageFault)>> = const { Cell::new(None) };
+    }
+
+    pub fn arm_stage_fault(fault: Option<(u32, StageFault)>) {
+        ARMED.with(|c| c.set(fault));
+    }
+
+    pub(super) fn stage_probe(stage: u32) -> Result<()> {
+        match ARMED.with(|c| c.get()) {
+            Some((s, StageFault::Fail)) if s == stage => {
+                bail!("verif: injected generation failure at stage {}", stage)
+            }
+            Some((s, StageFault::Abort)) if s == stage => std::process::abort(),
+            _ => Ok(()),
+        }
+    }
+
+    pub fn create_staging_dir(output_dir: &Path) -> Result<PathBuf> {
+        super::create_staging_dir(output_dir)
+    }
+
+    pub fn commit_staging_dir_impl(
+        staging_dir: &Path,
+        output_dir: &Path,
+        rename: impl Fn(&Path, &Path) -> std::io::Result<()>,
+    ) -> Result<()> {
+        super::commit_staging_dir_impl(staging_dir, output_dir, rename)
+    }
 }
 
 #[cfg(test)]
